@@ -22,6 +22,13 @@ type c07Payload struct {
 	Long string `json:"long,omitempty"` // descriptor of a generated long literal (kind:length) instead of its text
 }
 
+// literal interplay: a first literal whose END can desynchronise a line-oriented scanner (quotes of another
+// kind, comment markers, escaped delimiters, escaped backslashes right before the closing delimiter), and a
+// second, multi-line literal whose lines end in blanks
+var c07InterplayFirst = []string{"`http://x`", "`a\\`b`", "\"//\"", "'\"'", "\"'\"", "'`'", "`\"`", "`'`", "\"\\\\\"", "`\\\\`", "'a\\'b'", "`${`}`", "\"a\\\"b\"", "'//'", "`// `",
+	"`C:\\\\`", "'\\\\'", "\"x\\\\\\\"\"", "`\\\\\\``", "'\\\\\\\\'"}
+var c07InterplaySecond = []string{"`p  \n  q  \n`", "`  \n\nz`", "`k \n`", "`\t \n \t`", "`a \" b  \n c `", "`it's  \n' `"}
+
 // c07LongLit builds the long literal a descriptor names. The value is observed through length, both ends
 // and the position of a marker, not printed in full.
 func c07LongLit(kind string, n int) string {
@@ -433,7 +440,8 @@ func c07Run(c *core.Ctx) {
 			b.add("({" + q + k + q + ": 7})[" + q + k + q + "]")
 		}
 	}
-	for _, n := range []string{"0", "1", "7", "10", "255", "0x1f", "0b11", "0o17", "1e3", "1.5", "0.5", "1e-2", "9007199254740993", "00", "017"} {
+	for _, n := range []string{"0", "1", "7", "10", "255", "0x1f", "0b11", "0o17", "1e3", "1.5", "0.5", "1e-2", "9007199254740993", "00", "017",
+		"9223372036854775807", "9223372036854775808", "18446744073709551615", "18446744073709551616", "100000000000000000000", "1e21", "0xffffffffffffffff", "0x10000000000000000", "0b1" + strings.Repeat("0", 64), "0o2000000000000000000000", "123456789012345678901234567890"} {
 		b.add(n + " .toString()")
 		b.add("(" + n + ").toString()")
 		b.add(n + " .constructor === Number")
@@ -447,8 +455,7 @@ func c07Run(c *core.Ctx) {
 	// multi-line literal whose lines end in blanks (line-oriented post-processing of the output must not be
 	// thrown off by the first and damage the second)
 	b = B("literal-interplay")
-	first := []string{"`http://x`", "`a\\`b`", "\"//\"", "'\"'", "\"'\"", "'`'", "`\"`", "`'`", "\"\\\\\"", "`\\\\`", "'a\\'b'", "`${`}`", "\"a\\\"b\"", "'//'", "`// `"}
-	second := []string{"`p  \n  q  \n`", "`  \n\nz`", "`k \n`", "`\t \n \t`", "`a \" b  \n c `", "`it's  \n' `"}
+	first, second := c07InterplayFirst, c07InterplaySecond
 	for _, f := range first {
 		for _, sec := range second {
 			b.add(f + " + " + sec)
